@@ -28,6 +28,7 @@ if suddenly overcome by the urge to "make everything consistent"
 --------------------------------------------------------------------------------
 """
 
+import copy
 import sys
 assert sys.version_info >= (3, 0)  # Bomb out if not running Python3
 
@@ -149,9 +150,14 @@ def start_state_name(child_state_machine):
 def merge_result(data, context, result, state, output_path=None):
     """
     Boiler plate to apply both ResultPath and OutputPath (or supplied output_path)
+
+    The result is merged into a copy of the raw input: if the state's output is
+    subsequently refused (e.g. it exceeds the data size quota) the state's
+    Retriers and Catchers must still see its original input, not one that
+    already holds the rejected result.
     """
     output = apply_resultpath(
-        data, result, state.get("ResultPath", "$")
+        copy.deepcopy(data), result, state.get("ResultPath", "$")
     )
 
     output_path = output_path if output_path else state.get("OutputPath", "$")
@@ -2025,6 +2031,9 @@ class StateEngine(object):
                                 state_machine, state_type, state.get("Next"), event
                             )
                             if error_type:
+                                # The transition was refused, any Retrier must
+                                # re-run the state with its original input.
+                                event["data"] = data
                                 handle_error(state, error_type, error_message)
 
                             self.event_dispatcher.acknowledge(id)
@@ -3446,6 +3455,9 @@ class StateEngine(object):
                     state_machine, state_type, state.get("Next"), event
                 )
                 if error_type:
+                    # The transition was refused, any Retrier must re-run
+                    # the Parallel or Map state with its original input.
+                    event["data"] = data
                     handle_error(state, error_type, error_message)
 
             # Acknowledge the events for each branch's terminal state
